@@ -1,5 +1,6 @@
 //! tv — model-checking harness for trust-platform (see /verif/DESIGN.md).
 pub mod corpus;
+pub mod dump;
 pub mod engines;
 pub mod fw;
 pub mod iso;
